@@ -89,6 +89,12 @@ def directed(ng):
         out.append({'name': 'dir%d_%d' % (ng, j), 'ng': ng, 'nq': 2, 'gpu': [1, 1], 'home': home, 'len': [big, small],
                     'progs': [[{'k': 'd2d', 'dst': 2, 'src': 1}, {'k': 'd2h', 'b': 2}], p2],
                     'order': [2, 1, 1] + [2] * (nh + 1), 'drain': ['seq', 'par', 'rev'][j % 3]})
+    # a large read-back at the end of a queue: what the array holds when DrainCommandQueue returns is compared with
+    # what it holds at the end of the run (a drain must not return before the copy's data has been delivered)
+    out.insert(1, {'name': 'big%d' % ng, 'ng': ng, 'nq': 2, 'gpu': [1, 1], 'home': home, 'len': [262144, 64],
+                   'progs': [[{'k': 'h2d', 'b': 1, 'v': 11}, {'k': 'd2h', 'b': 1}, {'k': 'h2d', 'b': 2, 'v': 12}, {'k': 'd2h', 'b': 2}],
+                             [{'k': 'd2h', 'b': 3}]],
+                   'order': [1, 1, 1, 1, 2], 'drain': 'par'})
     return out
 
 
@@ -211,7 +217,7 @@ def run_component(ctx):
     parts_all = []
     first = None
     for ng, n in ((1, n1), (2, n2), ('emu', n2)):
-        scen = ([] if ng == 'emu' else directed(ng)[:(4 if thorough else 2)]) + [gen_scenario(rng, i, ng) for i in range(n)]
+        scen = ([] if ng == 'emu' else directed(ng)[:(5 if thorough else 3)]) + [gen_scenario(rng, i, ng) for i in range(n)]
         t, stats = run_scenarios(ctx, drv, scen, '%sgpu' % ng)
         if t is None:
             continue
